@@ -41,6 +41,17 @@ Proof.
   apply registry_mismatches_sound; exact registry_tables_clean_after.
 Qed.
 
+(* ... and of what a user sees after importing only the public package *)
+Lemma tables_agree_public_import :
+  enums_agree_spec enum_pairing exc_cpp_only exc_py_only exc_renamed cpp_enums py_enums_public /\
+  classification_agrees_spec cpp_classification py_classification_public py_command_messages_public py_response_messages_public /\
+  registry_bijective_spec cpp_messages py_classes_public py_registry_public.
+Proof.
+  split; [apply enums_mismatches_sound; vm_compute; reflexivity|].
+  split; [apply classification_mismatches_sound; vm_compute; reflexivity|].
+  apply registry_mismatches_sound; vm_compute; reflexivity.
+Qed.
+
 (* The comparison functions are not vacuous: they flag a changed number, a missing member, a sentinel that
    hides a wire value, a classification difference and a version difference on small synthetic tables. *)
 Open Scope string_scope.
